@@ -328,8 +328,8 @@ fn c13_oracle(sc: &Scenario, ex: &Execution, info: &mut CaseInfo) -> Vec<Finding
 fn c13_conc_strategy(_t: Tier) -> BoxedStrategy<Scenario> {
     // a sink task that is parking while other threads drop the receivers
     let q = gen::qcfg(BOTH, FutMode::Always, prop_oneof![Just(1u8), Just(2u8)].boxed(), gen::wait_any());
-    (q, 0u8..3, 1usize..=2, any::<bool>(), gen::schedule(300), vec(any::<bool>(), 3), vec(0u8..3, 3)).prop_map(
-        |(q, extra_rx, droppers, two_sinks, sched, unsub, conv)| {
+    (q, 0u8..3, 1usize..=2, any::<bool>(), gen::schedule(300), vec(any::<bool>(), 3), vec(0u8..3, 3), vec(prop_oneof![3 => Just(0u8), 1 => Just(1u8), 1 => Just(2u8)], 2)).prop_map(
+        |(q, extra_rx, droppers, two_sinks, sched, unsub, conv, adds)| {
             let n = q.n();
             let mut main = Vec::new();
             for _ in 0..n {
@@ -370,6 +370,11 @@ fn c13_conc_strategy(_t: Tier) -> BoxedStrategy<Scenario> {
                 let p = progs.len() as u8;
                 main.push(Op::Spawn { prog: p, tx: vec![], rx: vec![0; take] });
                 let mut ops = Vec::new();
+                // streams added and removed again while the other dropper removes its streams:
+                // the two replacements of the stream list collide (round-5 seed C13-6)
+                for _ in 0..adds[d % 2] {
+                    ops.push(Op::WithNewStream { rx: 0, unsub: false });
+                }
                 for k in 0..take {
                     // the handle may leave as a single-consumer receiver (its own Drop impl);
                     // the conversion is refused, and the handle kept as it is, while the stream
@@ -447,7 +452,9 @@ fn c15_oracle(sc: &Scenario, ex: &Execution, info: &mut CaseInfo) -> Vec<Finding
         || direct_between_polls;
     let h = Hist::build(sc, ex);
     let mut f = orc::verdict_findings(&h, true);
-    f.extend(orc::interpreter_violations(&h, &["ModelMismatch", "HandBackMismatch"]));
+    // NotReady obliges the handle to notify the task once progress is possible (the futures 0.1
+    // contract of Sink and Stream): the sequential notification oracle of C14 applies as well
+    f.extend(orc::interpreter_violations(&h, &["ModelMismatch", "HandBackMismatch", "ParkedNotNotified"]));
     f
 }
 
@@ -1085,6 +1092,7 @@ fn c16_oracle(sc: &Scenario, ex: &Execution, info: &mut CaseInfo) -> Vec<Finding
 fn probe_opts() -> ExecOpts {
     ExecOpts {
         probe_bound: 300,
+        try_quiet: true,
         ..ExecOpts::default()
     }
 }
@@ -1105,6 +1113,7 @@ fn c18_oracle(sc: &Scenario, ex: &Execution, info: &mut CaseInfo) -> Vec<Finding
     info.count("probes", ex.stats.probes);
     info.count("probes_with_a_thread_frozen_inside_a_call", ex.stats.probes_with_frozen_midcall);
     info.max("max_steps_of_a_solo_try_operation", ex.stats.max_probe_steps);
+    info.max("max_uninterrupted_steps_of_any_try_operation", ex.outcome.max_try_quiet);
     info.class(format!("probes_with_frozen_midcall={}", ex.stats.probes_with_frozen_midcall.min(4)));
     info.nontrivial = ex.stats.probes_with_frozen_midcall > 0;
     let _ = note_stuck(&h, info);
@@ -1461,7 +1470,7 @@ pub fn registry() -> Vec<PropDef> {
                 source: Source::Random { strategy: probe_churn_strategy, cases: cases_fn!(1500, 25000) },
                 oracle: c18_oracle,
             }],
-            rule: "traffic on busy/yielding queues, and handle/stream churn scenarios (enough retirements to open reclamation epochs, so that the manager locks are taken and the epoch signal is raised); at generated points one thread freezes all others wherever they are and runs a single try_send / try_recv / try_recv_view alone; oracle = the call returns within 300 of its own scheduling points and never blocks on a lock held by a frozen thread; non-trivial = the probe ran while another thread was frozen strictly inside an API call",
+            rule: "traffic on busy/yielding queues, and handle/stream churn scenarios (enough retirements to open reclamation epochs, so that the manager locks are taken and the epoch signal is raised); at generated points one thread freezes all others wherever they are and runs a single try_send / try_recv / try_recv_view alone; oracle = the call returns within 300 of its own scheduling points and never blocks on a lock held by a frozen thread; in addition EVERY try operation of every execution (not only the probes) may execute at most 300 scheduling points in a row without another thread changing shared state in between; non-trivial = the probe ran while another thread was frozen strictly inside an API call",
             assumptions: vec![SC_ASSUME, SAMPLE_ASSUME],
         },
         PropDef {
@@ -1598,7 +1607,7 @@ pub fn registry() -> Vec<PropDef> {
                     oracle: c15_conc_oracle,
                 },
             ],
-            rule: "futures handles only. Sequential histories mixing start_send/poll_complete/poll with the direct methods (random and exhaustive to depth 4/5), each call run alone under a step bound base+k*(try_spins+yield_spins); concurrent traffic through Sink/Stream tasks on the deterministic executor with the C01/C02/C03/C07 oracles; non-trivial (seq) = NotReady seen from both sides OR a poll of a never-written slot OR a direct method call between two polls; (concurrent) = wrap AND overlap AND some NotReady",
+            rule: "futures handles only. Sequential histories mixing start_send/poll_complete/poll with the direct methods (random and exhaustive to depth 4/5), each call run alone under a step bound base+k*(try_spins+yield_spins), and a task that was given NotReady must have been notified by the time a call that makes progress possible for it returns; concurrent traffic through Sink/Stream tasks on the deterministic executor with the C01/C02/C03/C07 oracles; non-trivial (seq) = NotReady seen from both sides OR a poll of a never-written slot OR a direct method call between two polls; (concurrent) = wrap AND overlap AND some NotReady",
             assumptions: vec![MODEL_ASSUME, SC_ASSUME, SAMPLE_ASSUME, "configured spin counts and the fixed post-park sleep are bounded delays and are not flagged"],
         },
     ]
